@@ -24,3 +24,9 @@ claim("C10",
   "Every generated case must return normally from every call. Documents are constructed to be accepted by document validation (the property's precondition; the rejection rate is measured) and deliberately use what validation does not forbid. Absence of panics is not established, only not found in what was explored.",
   "Trusted: the guard (recover + stack parsing) and the watchdog. Traffic is built as *http.Request / header / body values the way net/http hands them over; raw sockets are not used. Seven crash classes found here were repaired (see known_findings.json).",
   "DESIGN.md#c10")
+
+claim("C20",
+  "fuzzing / property-based testing with a crash-and-termination oracle: structure-aware mutation (rapid) of docgen documents, the repository's test documents and hand-written adversarial reference graphs, as JSON and YAML, over an in-memory file tree, through LoadFromData / LoadFromDataWithPath / LoadFromURI with both settings of the external switch, then Validate, json/yaml marshal, InternalizeRefs; native coverage-guided fuzzing of the generator-driven target and of a raw byte target in the thorough tier",
+  "Every explored input must make every call return normally: panics are caught and attributed to their first kin-openapi frame, process deaths (stack overflow) are attributed through a per-case journal and re-run alone, non-termination is a 20 s watchdog confirmed by a 60 s solo re-run. Sampled; inputs <= 64 KiB.",
+  "Trusted: guard/journal/watchdog machinery. Wall-clock enters only the non-termination oracle. Three open panic classes are listed in known_findings.json (printed as KNOWN-FINDING, suppressed by exact signature); eight others found here were repaired.",
+  "DESIGN.md#c20")
